@@ -159,8 +159,8 @@ var props = map[string]*propDef{
 		}, baseAssumptions...),
 		Harnesses: []harnessDef{
 			{Name: "proto.VerifC16LowCardinalityWidths", Quick: map[string]int{"maxsteps": 3}, Thorough: map[string]int{"maxsteps": 4}},
-			{Name: "proto.VerifC16Composites", Must: mustC16, Quick: map[string]int{"maxsteps": 3, "minstr": 1, "maxstr": 1, "mininner": 1, "maxinner": 1}, Thorough: map[string]int{"maxsteps": 4, "minstr": 1, "maxstr": 1, "mininner": 1, "maxinner": 1}},
-			{Name: "proto.VerifC16PlainLeaves", Must: mustC16, Quick: map[string]int{"maxsteps": 3, "minstr": 1, "maxstr": 1, "minprec": 3, "maxprec": 3, "minscale": 3, "maxscale": 3}, Thorough: map[string]int{"maxsteps": 4, "minstr": 1, "maxstr": 1}},
+			{Name: "proto.VerifC16Composites", Must: mustC16, Quick: map[string]int{"maxsteps": 3, "minstr": 1, "maxstr": 1, "mininner": 1, "maxinner": 1}, Thorough: map[string]int{"maxsteps": 3, "minstr": 0, "maxstr": 1, "mininner": 0, "maxinner": 1}},
+			{Name: "proto.VerifC16PlainLeaves", Must: mustC16, Quick: map[string]int{"maxsteps": 3, "minstr": 1, "maxstr": 1, "minprec": 3, "maxprec": 3, "minscale": 3, "maxscale": 3}, Thorough: map[string]int{"maxsteps": 3, "minstr": 0, "maxstr": 1}},
 			{Name: "proto.VerifC16GenLeaves", Must: mustC16, Quick: map[string]int{"maxsteps": 2}, Thorough: map[string]int{"maxsteps": 3}},
 		},
 	},
